@@ -36,7 +36,15 @@ def mlcl_arg(draw, n):
                           min_size=1, max_size=6))
     ml = [[i, j] for i, j in pairs if groups[i] == groups[j]]
     cl = [[i, j] for i, j in pairs if groups[i] != groups[j]]
-    return {"ml": ml, "cl": cl, "factor": draw(st.sampled_from([0.5, 1.0, 3.0]))}
+    out = {"ml": ml, "cl": cl, "factor": draw(st.sampled_from([0.5, 1.0, 3.0]))}
+    if draw(st.integers(0, 3)) == 0:
+        # the helper applied a second time to the same model, with its own pairs and its own weight
+        pairs2 = draw(st.lists(st.tuples(st.integers(0, n - 1), st.integers(0, n - 1)).filter(lambda p: p[0] != p[1]),
+                               min_size=1, max_size=4))
+        out["again"] = {"ml": [[i, j] for i, j in pairs2 if groups[i] == groups[j]],
+                        "cl": [[i, j] for i, j in pairs2 if groups[i] != groups[j]],
+                        "factor": draw(st.sampled_from([4.0, 0.25, 1.0]))}
+    return out
 
 
 @st.composite
@@ -55,6 +63,8 @@ def run_checked(case, path_args=None):
     if mlcl is not None:
         try:
             add_mlcl_constraint(est, mlcl["ml"] or None, mlcl["cl"] or None, mlcl["factor"])
+            if mlcl.get("again"):
+                add_mlcl_constraint(est, mlcl["again"]["ml"] or None, mlcl["again"]["cl"] or None, mlcl["again"]["factor"])
         except ValueError:
             # acceptance of consistent constraint sets is C14's subject; nothing to observe here
             return {"nontrivial": False, "classes": [s["cls"] + ":mlcl_rejected"], "counts": {"mlcl_rejected": 1}}
